@@ -12,7 +12,7 @@ STYLE_SYNTAXES = ['css', 'scss', 'sass', 'less', 'sss', 'stylus']
 # ---------------------------------------------------------------- abbreviation generator
 SNIPPET_NAMES = ['a', 'img', 'br', 'input', 'label', 'bq', 'body', 'link', 'btn', 'hr']
 PLAIN_TEXTS = ['t', 'hello world', 'x y', 'T1', 'some text here']
-ML_TEXTS = ['a\nb', 'one\r\ntwo', 'l1\nl2\nl3', 'p q\nr']
+ML_TEXTS = ["a\nb", "one\r\ntwo", "l1\nl2\nl3", "p q\nr", "v\x0bt", "f\x0cf g", "u\u2028s"]
 WS_TEXTS = [' lead', 'trail ', 'in\n  dented']
 TAG_TEXTS = ['<div>in</div>', '<b>x</b>', '<section class="k">s</section> tail']
 FIELD_TEXTS = ['a ${1} b', '${1:ph}', 'x ${2:two} y ${1:one}', '${3}${1}', '${0:zero} w', '${1:m\nn} z', 'k ${2:p\nq\nr}']
@@ -174,6 +174,11 @@ ATTR_RE = re.compile(r'\s+([^\s=/>]+)(?:=("[^"]*"|\'[^\']*\'|\{[^{}]*\}))?', re.
 NAME_RE = re.compile(r'<([^\s/>]+)')
 
 
+def tag_end(out, off):
+    m = TOKEN_RE.match(out, off)
+    return m.end() - 1
+
+
 def squeeze(s):
     return ''.join(s.split())
 
@@ -242,10 +247,11 @@ def depth_check(out, opts):
     base = opts['output.baseIndent']
     toks = scan(out)
     # open-element count at each offset
+    # an element is open from the end of its opening tag to the start of its closing tag
     events = []
     for t, off in toks:
         if t[0] == 'open' and not t[3]:
-            events.append((off, +1))
+            events.append((out.index('>', off) if t[2] == () else tag_end(out, off), +1))
         elif t[0] == 'close':
             events.append((off, -1))
     lines = out.split(nl)
